@@ -324,6 +324,24 @@ fn angle_f64<V: InnerSpace<Scalar = f64> + Comp<f64>>(d: &mut Draw) -> Outcome {
         ensure!(a >= 0.0 && a <= PI, "angle-range", "{}::angle = {} outside [0, pi]", V::NAME, a);
         ensure!((a - b).abs() <= 1e-12 || (a.cos() - b.cos()).abs() <= 1e-15, "angle-symmetric", "{}: angle(u,v) = {}, angle(v,u) = {}", V::NAME, a, b);
     }
+    // the angle does not depend on the lengths: scaling u and v by (different) powers of two leaves it unchanged, wherever
+    // the quantities of the statement - |u|, |v|, u.v, and in 2-D / 3-D the library's documented signed / cross-product
+    // form - are finite normal numbers. Exponents: dimension 2, |e1|, |e2| <= 450; dimension 3, |e1|, |e2| <= 200 (the cross
+    // product's squared length is of the order 4^(e1+e2)); otherwise |e1|, |e2| <= 470 each, so that |u|^2 and |v|^2 exist
+    {
+        let lim = if V::N == 2 { 450 } else if V::N == 3 { 200 } else { 470 };
+        let (e1, e2) = (d.int(-lim, lim) as i32, d.int(-lim, lim) as i32);
+        let two = |x: f64, e: i32| x * (2.0f64).powi(e / 2) * (2.0f64).powi(e - e / 2);
+        // (start from the unscaled configuration: rescale() above may already have moved it)
+        let (bu, bv) = (fnorm(&u), fnorm(&v));
+        if bu > 1e-3 && bu < 1e3 && bv > 1e-3 && bv < 1e3 {
+            let us: Vec<f64> = u.iter().map(|x| two(*x, e1)).collect();
+            let vs: Vec<f64> = v.iter().map(|x| two(*x, e2)).collect();
+            let s = V::from_s(&us).angle(V::from_s(&vs)).0;
+            d.note("exponents of the scaled pair, its angle", &((e1, e2), s));
+            ensure!(s.is_finite() && (s - a).abs() <= 1e-14 * (1.0 + a.abs()), "angle-scale-covariance", "{}: angle(u, v) = {:e} but angle(2^{} u, 2^{} v) = {:e}", V::NAME, a, e1, e2, s);
+        }
+    }
     pass(cls, true)
 }
 
@@ -357,7 +375,7 @@ pub fn property() -> Property {
             add!(concat!("inner-", $tag, "-Fp"), "Fp", inner_field::<Fp, $T<Fp>>, 2000, 150_000, 56, &[("generic", 100)], RG);
             add!(concat!("lengths-", $tag, "-Q"), "Q", lengths_q::<$T<Q>>, 2000, 150_000, 48, &[], "vector of rational length with no zero component, m and scale != 1");
             add!(concat!("lengths-", $tag, "-f64"), "f64", lengths_f64::<$T<f64>>, 3000, 200_000, 72, PAIRS, "every generated pair");
-            add!(concat!("angle-", $tag, "-f64"), "f64", angle_f64::<$T<f64>>, 4000, 300_000, 72, PAIRS, "every generated pair; (anti)parallel and nearly (anti)parallel pairs required");
+            add!(concat!("angle-", $tag, "-f64"), "f64", angle_f64::<$T<f64>>, 4000, 300_000, 96, PAIRS, "every generated pair; (anti)parallel and nearly (anti)parallel pairs required");
         };
     }
     inner!(Vector1, "Vector1");
